@@ -63,12 +63,64 @@ def raw_search(inst, which, variant):
     return {'status': 'crash:' + type(e).__name__, 'designs': []}
 
 
+def project_raw(inst, res, which, ids, scale):
+  num = {str(i): g + 1 for g, i in enumerate(ids)}
+  budget_rule = which == 'exh' and inst['budget'] is not None
+  designs = []
+  for d in res:
+    sc = tuple(d.score.score)
+    designs.append({'t': sorted(num.get(str(x), 0) for x in d.treatment_geos),
+                    'c': sorted(num.get(str(x), 0) for x in d.control_geos),
+                    'tests': [int(sc[0]), int(sc[1]), int(sc[2]), int(sc[3]), int(bool(d.diag.tests_ok))],
+                    'corr100': int(round(float(sc[4]) * 100)),
+                    'impact': float(d.diag.required_impact) / scale,
+                    'last': float(sc[5]) * (1.0 if budget_rule else scale)})
+  return {'status': 'ok', 'designs': designs}
+
+
+def side_by_side(inst, va, vb):
+  """Two presentations alive at the same time, used in turns (build A, build B, count both, search A, search B, ...)."""
+  from matched_markets.methodology import tbrmatchedmarkets
+  out = []
+  try:
+    objs = []
+    for v in (va, vb):
+      data, par, ids = mm.build_objects(inst, dict(v))
+      objs.append((tbrmatchedmarkets.TBRMatchedMarkets(data, par), ids, v.get('scale', 1.0)))
+    for m, _, _ in objs:
+      m.count_max_designs()
+    results = [{}, {}]
+    for which in ('exh', 'greedy'):
+      for k, (m, ids, scale) in enumerate(objs):
+        try:
+          r = m.exhaustive_search() if which == 'exh' else m.greedy_search()
+          results[k][which] = project_raw(inst, r, which, ids, scale)
+        except ValueError:
+          results[k][which] = {'status': 'valueerror', 'designs': []}
+        except Exception as e:  # pylint: disable=broad-except
+          results[k][which] = {'status': 'crash:' + type(e).__name__, 'designs': []}
+    return results
+  except ValueError:
+    r = {'status': 'valueerror', 'designs': []}
+    return [{'exh': r, 'greedy': r}, {'exh': r, 'greedy': r}]
+  except Exception as e:  # pylint: disable=broad-except
+    r = {'status': 'crash:' + type(e).__name__, 'designs': []}
+    return [{'exh': r, 'greedy': r}, {'exh': r, 'greedy': r}]
+
+
 def run_group(args):
   inst, variants = args
   out = []
   for name, v in variants:
     out.append({'name': name, 'variant': {k: (val if k != 'ids' else list(val)) for k, val in v.items()},
                 'exh': raw_search(inst, 'exh', v), 'greedy': raw_search(inst, 'greedy', v)})
+  # the base presentation and the last (scaled, shifted, shuffled) one side by side in one process
+  names = [n for n, _ in variants]
+  if 'scaled_shifted_shuffled' in names:
+    vb = dict(variants[names.index('scaled_shifted_shuffled')][1])
+    ra, rb = side_by_side(inst, {}, vb)
+    out.append({'name': 'base_beside_scaled', 'variant': {'beside': vb}, 'exh': ra['exh'], 'greedy': ra['greedy']})
+    out.append({'name': 'scaled_beside_base', 'variant': {'beside_base': True, **vb}, 'exh': rb['exh'], 'greedy': rb['greedy']})
   return out
 
 
@@ -133,6 +185,13 @@ def run(res):
   count = 700 if thorough else 70
   rng = random.Random(res.seed * 17 + 12)
   insts = mm.make_instances(res.seed + 12, 'C03', int(count * 1.4), nmax_geos=5)
+  for k, i in enumerate(insts):
+    i['partner'] = None
+    i['decoy'] = False
+    i['perturb_after'] = False
+    if k % 2 == 0:       # budget bounds placed at quantiles of the designs' own required budgets
+      i['want_budget'] = True
+      i['budget_mode'] = ['low_half', 'middle', 'high'][(k // 2) % 3]
   insts = par_mod.pmap(mm._prep, insts)
   kept = [i for i in insts if i['tab'] is not None and i['tab']['margin'] >= oracle.REL and tie_free(i)][:count]
   res.extra['dropped_nongeneric_or_tied'] = len(insts) - len(kept)
@@ -177,7 +236,8 @@ def run(res):
 def replay(res, blob):
   c = blob['case']
   inst = mm.attach_oracle(mm.from_public(c['instance']))
-  variants = [(n, {k: (v if k != 'ids' else list(v)) for k, v in var.items()}) for n, var in c['variants']]
+  variants = [(n, {k: (v if k != 'ids' else list(v)) for k, v in var.items()}) for n, var in c['variants']
+              if n not in ('base_beside_scaled', 'scaled_beside_base')]
   runs = run_group((inst, variants))
   verdicts = judge(res, [to_tla(inst['id'], runs)], 'replay')
   res.traces += len(runs)
